@@ -206,6 +206,21 @@ def one_history(run, rng, wd, hid, page_size, steps, rows0, dist, real_file, wit
         hist.append("vacuum with another page_size before the first read")
     read_round(run, (impl, model), conn, path, hist[-1], hist, dist)
     for s in range(steps):
+        tabs_now = objects(conn)[0]
+        if real_file and s % 3 == 1 and tabs_now:
+            # a read attempted while the writer holds the EXCLUSIVE lock is refused (C07); the handle must come out of
+            # the refusal as it went in: the commit made under that lock is seen by the next read
+            tx = tabs_now[0]
+            cx = [r[1] for r in conn.execute("PRAGMA table_info(%s)" % tx)]
+            conn.execute("BEGIN EXCLUSIVE")
+            refused = impl.cmd("hselect - %s 0 %s" % (hl.hx(tx), hl.names(cx)))
+            conn.execute("INSERT INTO %s DEFAULT VALUES" % tx)
+            conn.execute("COMMIT")
+            hist.append("a read attempted while the writer held EXCLUSIVE (%s), then that writer's commit" % ("refused" if any("err" in l for l in refused) else "NOT refused: %s" % refused[-2:]))
+            dist["refused_reads"] = dist.get("refused_reads", 0) + 1
+            read_round(run, (impl, model), conn, path, hist[-1], hist, dist)
+            if run.violations:
+                break
         what = write_step(rng, conn, state)
         hist.append(what)
         dist["writes"][what.split(" ")[0]] = dist["writes"].get(what.split(" ")[0], 0) + 1
